@@ -120,7 +120,7 @@ drv_xvar(int argc, char **argv)
                         /* cross-variant recovery: decrypt the reference ciphertext on every variant */
                         int nrec = 0, nrecbad = 0;
                         if (st0 == IMB_STATUS_COMPLETED && sp.cm != IMB_CIPHER_NULL && sp.dir == IMB_DIR_ENCRYPT &&
-                            sp.ha != IMB_AUTH_DOCSIS_CRC32 && sp.cm != IMB_CIPHER_CBCS_1_9 && !sp.bitadj) {
+                            sp.ha != IMB_AUTH_DOCSIS_CRC32 && sp.ha != IMB_AUTH_PON_CRC_BIP && sp.cm != IMB_CIPHER_CBCS_1_9 && !sp.bitadj) {
                                 hx_spec dsp = sp;
                                 dsp.dir = IMB_DIR_DECRYPT;
                                 dsp.order = (sp.cm == IMB_CIPHER_CCM) ? IMB_ORDER_CIPHER_HASH : IMB_ORDER_HASH_CIPHER;
